@@ -36,7 +36,7 @@ NS = 5
 def target(c, seed):
     d = len(c['shape'])
     cores = space.tt(c['shape'], [1] + [c['rho']] * (d - 1) + [1], c['pat'], seed, tag=13)
-    return ref.dense(cores)
+    return ref.dense(cores) * float(c.get('mag', 1.0))
 
 
 def true_ranks(T):
@@ -67,6 +67,8 @@ def run(c, seed, T, nswp, cache, vld, cb=None):
     if vld:
         I = space.grid_array(c['shape'])
         I = I[::2] if len(I) > 3 else I
+        if c.get('big_vld'):
+            I = np.tile(I, (c['big_vld'] // len(I) + 1, 1))[:c['big_vld']]
         kw.update(I_vld=I, y_vld=T[tuple(I.T)])
     with warnings.catch_warnings():
         warnings.simplefilter('ignore')
@@ -109,6 +111,11 @@ def check_config(c):
         n0 = float(np.linalg.norm(D0))
         dv = float(np.linalg.norm(ref.dense(Ypre) - D0))
         res.check(dv <= 1e-9 * n0, 'pre.same', case, lambda: 'nswp=0 returns a tensor that differs from Y0 by relative %.3e' % (dv / n0), tags + ['pre'])
+        if kw.get('I_vld') is not None:
+            Iv, yv = kw['I_vld'], kw['y_vld']
+            ev0 = float(np.linalg.norm(ref.dense(Ypre)[tuple(np.asarray(Iv).T)] - yv) / np.linalg.norm(yv))
+            res.check(abs(ipre.get('e_vld') - ev0) <= 1e-6 * ev0 + 1e-9, 'info.e_vld.pre', case,
+                      lambda: "nswp=0: info['e_vld']=%r, relative validation error of the returned tensor %r" % (ipre.get('e_vld'), ev0), tags)
         e1 = cbu.snaps[0]['info']['e']
         w1 = float(np.linalg.norm(ref.dense(cbu.snaps[0]['Y']) - D0)) / n0
         res.check(abs(e1 - w1) <= 1e-7 * (1 + w1), 'info.e.first', case,
@@ -131,6 +138,15 @@ def check_config(c):
                 claimed = True
         if claimed:
             res.nt((shape, c['rho'], c['pat'], c['r0'], c['dr'], vld))
+        # rank growth: with dr_min >= 1 every sweep raises every bond by at least one until nothing more can be carried
+        if c['dr'][0] >= 1:
+            for s in range(1, NS + 1):
+                ro = [G.shape[2] for G in states[s - 1][:-1]]
+                rn = [G.shape[2] for G in states[s][:-1]]
+                capk = [min(int(np.prod(shape[:k + 1])), int(np.prod(shape[k + 1:]))) for k in range(d - 1)]
+                okg = all(b >= min(a + 1, cp) for a, b, cp in zip(ro, rn, capk))
+                res.check(okg, 'growth', dict(case, sweep=s),
+                          lambda: 'sweep %d: ranks %s -> %s with dr_min=%d (caps %s): a bond did not grow' % (s, ro, rn, c['dr'][0], capk), tags + ['growth'])
         # sweep counts 1..NS are prefixes of the same trace
         for n in c.get('prefix_runs', []):
             res.ev()
@@ -161,11 +177,17 @@ def check_config(c):
                 warnings.simplefilter('ignore')
                 er = teneva.erank(Y)
                 e_ref = teneva.accuracy(Y, cb.snaps[-1]['Yold'])
-                ev_ref = teneva.accuracy_on_data(Y, kw.get('I_vld'), kw.get('y_vld'))
+                if kw.get('I_vld') is not None:
+                    Iv, yv = kw['I_vld'], kw['y_vld']
+                    pred = ref.dense(Y)[tuple(np.asarray(Iv).T)]
+                    ev_ref = float(np.linalg.norm(pred - yv) / np.linalg.norm(yv))      # independent of accuracy_on_data / get_many
+                else:
+                    ev_ref = -1.0
             res.check(info.get('r') == er, 'info.r', dict(case, run=nm), lambda: "info['r']=%r, erank=%r" % (info.get('r'), er), tags)
             res.check(info.get('e') == e_ref or (np.isnan(info.get('e')) and np.isnan(e_ref)), 'info.e', dict(case, run=nm),
                       lambda: "info['e']=%r, accuracy(Y, Y_prev)=%r" % (info.get('e'), e_ref), tags)
-            res.check(info.get('e_vld') == ev_ref or (np.isnan(info.get('e_vld')) and np.isnan(ev_ref)), 'info.e_vld', dict(case, run=nm),
+            evg = info.get('e_vld')
+            res.check((ev_ref == -1.0 and evg == -1.0) or abs(evg - ev_ref) <= 1e-6 * max(ev_ref, 1e-300) + 1e-9, 'info.e_vld', dict(case, run=nm),
                       lambda: "info['e_vld']=%r, accuracy_on_data=%r" % (info.get('e_vld'), ev_ref), tags)
             res.check(info.get('nswp') == NS and info.get('stop') == 'nswp', 'info.nswp', dict(case, run=nm),
                       lambda: 'nswp=%r stop=%r' % (info.get('nswp'), info.get('stop')), tags)
@@ -176,6 +198,11 @@ def check_config(c):
                     es = teneva.accuracy(sn['Y'], sn['Yold'])
                 res.check(sn['info']['e'] == es or (np.isnan(es) and np.isnan(sn['info']['e'])), 'info.e.sweep', dict(case, run=nm, sweep=s + 1),
                           lambda: "sweep %d: info['e']=%r vs %r" % (s + 1, sn['info']['e'], es), tags)
+                if kw.get('I_vld') is not None:
+                    Iv, yv = kw['I_vld'], kw['y_vld']
+                    evs = float(np.linalg.norm(ref.dense(sn['Y'])[tuple(np.asarray(Iv).T)] - yv) / np.linalg.norm(yv))
+                    res.check(abs(sn['info']['e_vld'] - evs) <= 1e-6 * max(evs, 1e-300) + 1e-9, 'info.e_vld.sweep', dict(case, run=nm, sweep=s + 1),
+                              lambda: "sweep %d: info['e_vld']=%r, relative validation error of that sweep's tensor %r" % (s + 1, sn['info']['e_vld'], evs), tags)
                 prevY = (Ypre if s == 0 else cb.snaps[s - 1]['Y'])
                 res.check(ref.core_bytes(sn['Yold']) == ref.core_bytes(prevY), 'info.yold', dict(case, run=nm, sweep=s + 1),
                           'Yold handed to the callback is not the previous sweep state', tags)
@@ -205,5 +232,16 @@ def strata(tier, seed):
                     for dr in drs:
                         cs.append(dict(shape=sh, rho=rho, pat=pat, r0=r0, dr=list(dr), seed=seed,
                                        prefix_runs=[1, 3] if tier == 'quick' else [1, 2, 3, 4]))
+    # extreme magnitudes of the target, a validation set larger than any internal batch size, maximal two-sided bonds
+    for mag in (1e-20, 1e+20):
+        for sh, rho in (([3, 3, 2], 2), ([4, 4], 3)):
+            for dr in ((0, 0), (1, 1)):
+                cs.append(dict(shape=sh, rho=rho, pat='gen', r0=rho if dr == (0, 0) else 1, dr=list(dr), seed=seed, mag=mag, prefix_runs=[1]))
+    cs.append(dict(shape=[3, 2, 3], rho=2, pat='gen', r0=2, dr=[0, 0], seed=seed, big_vld=20000, prefix_runs=[1]))
+    cs.append(dict(shape=[3, 2, 3], rho=2, pat='gen', r0=1, dr=[1, 1], seed=seed, big_vld=40001, prefix_runs=[]))
+    for sh, rho in (([5, 5], 5), ([2, 2, 2, 2], 2), ([3, 3], 3), ([2, 4, 2], 2)):
+        for r0 in (1, 2):
+            for dr in ((1, 1), (1, 2), (2, 2)):
+                cs.append(dict(shape=sh, rho=rho, pat='gen', r0=r0, dr=list(dr), seed=seed, prefix_runs=[]))
     yield Stratum('configurations', cs, 'config', size=len(cs), chunk=2,
                   bounds={'sweeps': NS, 'shapes': len(shapes), 'rho': rhos, 'r0': '1..rho+1', 'dr': [list(x) for x in drs]})
